@@ -44,13 +44,13 @@ Rep(p, k) == IF k <= 0 THEN <<>> ELSE p \o Rep(p, k - 1)
 \* ---- results ----------------------------------------------------------------------------------
 \* [k: typeof name, s: characters (strings), n: value (ints), a: values (arrays, maps), ks: keys (maps)]
 Res(k, s, n, a, ks) == [k |-> k, s |-> s, n |-> n, a |-> a, ks |-> ks]
-Str(s)  == Res(IF s = <<>> THEN "empty" ELSE "string", s, 0, <<>>, <<>>)      \* typeof("") is "empty"
-Int(n)  == Res("int", <<>>, n, <<>>, <<>>)
-Bool(b) == Res("boolean", <<IF b THEN "true" ELSE "false">>, 0, <<>>, <<>>)
-Err     == Res("error", <<>>, 0, <<>>, <<>>)
-Arr(a)  == Res("array", <<>>, 0, a, <<>>)
-Map(ks, a) == Res("map", <<>>, 0, a, ks)
-IsStr(r) == r.k \in {"string", "empty"} /\ r = Str(r.s)
+RStr(s)  == Res(IF s = <<>> THEN "empty" ELSE "string", s, 0, <<>>, <<>>)      \* typeof("") is "empty"
+RInt(n)  == Res("int", <<>>, n, <<>>, <<>>)
+RBool(b) == Res("boolean", <<IF b THEN "true" ELSE "false">>, 0, <<>>, <<>>)
+RErr     == Res("error", <<>>, 0, <<>>, <<>>)
+RArr(a)  == Res("array", <<>>, 0, a, <<>>)
+RMap(ks, a) == Res("map", <<>>, 0, a, ks)
+IsStr(r) == r.k \in {"string", "empty"} /\ r = RStr(r.s)
 
 \* ---- occurrences of a literal pattern ---------------------------------------------------------------
 OccursAt(s, p, k) == k >= 1 /\ k + Len(p) - 1 <= Len(s) /\ SubSeq(s, k, k + Len(p) - 1) = p
@@ -68,25 +68,25 @@ Alias0(i, n) == IF i < 0 THEN i + n ELSE i
 InB0(i, n) == -n <= i /\ i <= n - 1
 
 \* s[i]: "Out-of-bounds index accesses are errors"
-Index(s, i) == IF InB1(i, Len(s)) THEN Str(<<s[Alias1(i, Len(s))]>>) ELSE Err
+Index(s, i) == IF InB1(i, Len(s)) THEN RStr(<<s[Alias1(i, Len(s))]>>) ELSE RErr
 \* s[i:j]: "inclusive on both sides: x[3:5] means x[3] . x[4] . x[5]"; "out-of-bounds slice accesses result in trimming
 \* the indices, resulting in a short string or even the empty string. (This behavior intentionally imitates Python.)"
 Trim(s, i, j) == LET n == Len(s) IN Sub(s, Max(Alias1(i, n), 1), Min(Alias1(j, n), n))
 \* a slice bound 0 is out of bounds (trimmed) by one sentence and "never a valid string index" by another: both readings
-SliceOK(s, i, j, r) == r = Str(Trim(s, i, j)) \/ ((i = 0 \/ j = 0) /\ r = Err)
+SliceOK(s, i, j, r) == r = RStr(Trim(s, i, j)) \/ ((i = 0 \/ j = 0) /\ r = RErr)
 \* substr1(s,m,n) "gives substring of s from 1-up position m to n inclusive"; nothing is said about positions outside
 \* the string or m > n
 Substr1OK(s, i, j, r) ==
   LET n == Len(s) IN
-  IF InB1(i, n) /\ InB1(j, n) /\ Alias1(i, n) <= Alias1(j, n) THEN r = Str(SubSeq(s, Alias1(i, n), Alias1(j, n)))
+  IF InB1(i, n) /\ InB1(j, n) /\ Alias1(i, n) <= Alias1(j, n) THEN r = RStr(SubSeq(s, Alias1(i, n), Alias1(j, n)))
   ELSE Loose(s, r)
 Substr0OK(s, i, j, r) ==
   LET n == Len(s) IN
-  IF InB0(i, n) /\ InB0(j, n) /\ Alias0(i, n) <= Alias0(j, n) THEN r = Str(SubSeq(s, Alias0(i, n) + 1, Alias0(j, n) + 1))
+  IF InB0(i, n) /\ InB0(j, n) /\ Alias0(i, n) <= Alias0(j, n) THEN r = RStr(SubSeq(s, Alias0(i, n) + 1, Alias0(j, n) + 1))
   ELSE Loose(s, r)
 \* truncate: "Truncates string first argument to max length of int second argument" (negative lengths: silent)
 Take(s, k) == Sub(s, 1, Min(k, Len(s)))
-TruncateOK(s, k, r) == IF k >= 0 THEN r = Str(Take(s, k)) ELSE Loose(s, r)
+TruncateOK(s, k, r) == IF k >= 0 THEN r = RStr(Take(s, k)) ELSE Loose(s, r)
 
 \* ---- padding ------------------------------------------------------------------------------------
 \* "Left-pads first argument to at most the specified length ... using specified pad value":
@@ -97,7 +97,6 @@ RightPad(s, k, p) == s \o Rep(p, PadCount(k, Len(s), Len(p)))
 
 \* ---- case -------------------------------------------------------------------------------------
 ImageOK(s, t, F(_)) == Len(t) = Len(s) /\ \A k \in 1..Len(s) : t[k] \in F(s[k])
-Same(c) == {c}
 UpperOK(s, r) == IsStr(r) /\ ImageOK(s, r.s, UpperOf)
 LowerOK(s, r) == IsStr(r) /\ ImageOK(s, r.s, LowerOf)
 \* "Convert string's first character to uppercase"
@@ -148,16 +147,16 @@ Join(a, sep) == IF a = <<>> THEN <<>> ELSE IF Len(a) = 1 THEN a[1] ELSE a[1] \o 
 \* keys of an array / of splitnv's "integer-indexed map": "1", "2", ... (one character each: at most 9 pieces)
 IndexKeys(n) == [k \in 1..n |-> <<ToString(k)>>]
 \* whether splitting the empty string gives no piece or one empty piece is not stated
-SplitArrOK(s, sep, r) == IF s = <<>> THEN r \in {Arr(<<>>), Arr(<< <<>> >>)} ELSE r = Arr(Split(s, sep))
-SplitMapOK(s, sep, r) == IF s = <<>> THEN r \in {Map(<<>>, <<>>), Map(IndexKeys(1), << <<>> >>)}
-                         ELSE LET a == Split(s, sep) IN r = Map(IndexKeys(Len(a)), a)
+SplitArrOK(s, sep, r) == IF s = <<>> THEN r \in {RArr(<<>>), RArr(<< <<>> >>)} ELSE r = RArr(Split(s, sep))
+SplitMapOK(s, sep, r) == IF s = <<>> THEN r \in {RMap(<<>>, <<>>), RMap(IndexKeys(1), << <<>> >>)}
+                         ELSE LET a == Split(s, sep) IN r = RMap(IndexKeys(Len(a)), a)
 KeysOf(a, ks) == IF ks = <<>> THEN IndexKeys(Len(a)) ELSE ks          \* an array (ks empty) is keyed 1..n
 Pairs(a, ks, ps) == [k \in 1..Len(a) |-> KeysOf(a, ks)[k] \o ps \o a[k]]
 \* splitkvx: "a=3,b=4,c=5" -> {"a":"3","b":"4","c":"5"}; defined here on well-formed text only (every field has the pair
 \* separator once, keys distinct and non-empty)
 SplitKV(s, ps, fs) == LET f == Split(s, fs)
                           kv == [k \in 1..Len(f) |-> Split(f[k], ps)]
-                      IN Map([k \in 1..Len(f) |-> kv[k][1]], [k \in 1..Len(f) |-> kv[k][2]])
+                      IN RMap([k \in 1..Len(f) |-> kv[k][1]], [k \in 1..Len(f) |-> kv[k][2]])
 
 (***************************************************************************)
 (* Cases: [f, s, t, u, i, j, a, ks]                                          *)
@@ -165,13 +164,13 @@ SplitKV(s, ps, fs) == LET f == Split(s, fs)
 (*   a array argument (or map values), ks map keys                          *)
 (***************************************************************************)
 Allowed(c, r) ==
-  CASE c.f = "strlen"      -> r = Int(Len(c.s))
+  CASE c.f = "strlen"      -> r = RInt(Len(c.s))
     [] c.f = "toupper"     -> UpperOK(c.s, r)
     [] c.f = "tolower"     -> LowerOK(c.s, r)
     [] c.f = "capitalize"  -> CapitalizeOK(c.s, r)
-    [] c.f = "lstrip"      -> r = Str(LStrip(c.s))
-    [] c.f = "rstrip"      -> r = Str(RStrip(c.s))
-    [] c.f = "strip"       -> r = Str(Strip(c.s))
+    [] c.f = "lstrip"      -> r = RStr(LStrip(c.s))
+    [] c.f = "rstrip"      -> r = RStr(RStrip(c.s))
+    [] c.f = "strip"       -> r = RStr(Strip(c.s))
     [] c.f = "collapse_whitespace" -> CollapseOK(c.s, r)
     [] c.f = "clean_whitespace"    -> CleanOK(c.s, r)
     [] c.f = "index1"      -> r = Index(c.s, c.i)                       \* s[i]
@@ -180,22 +179,22 @@ Allowed(c, r) ==
     [] c.f = "substr0"     -> Substr0OK(c.s, c.i, c.j, r)
     [] c.f = "substr"      -> Substr0OK(c.s, c.i, c.j, r)                \* "substr is an alias for substr0"
     [] c.f = "truncate"    -> TruncateOK(c.s, c.i, r)
-    [] c.f = "leftpad"     -> r = Str(LeftPad(c.s, c.i, c.t))
-    [] c.f = "rightpad"    -> r = Str(RightPad(c.s, c.i, c.t))
-    [] c.f = "dot"         -> r = Str(c.s \o c.t)
-    [] c.f = "ssub"        -> r = Str(Ssub(c.s, c.t, c.u))
+    [] c.f = "leftpad"     -> r = RStr(LeftPad(c.s, c.i, c.t))
+    [] c.f = "rightpad"    -> r = RStr(RightPad(c.s, c.i, c.t))
+    [] c.f = "dot"         -> r = RStr(c.s \o c.t)
+    [] c.f = "ssub"        -> r = RStr(Ssub(c.s, c.t, c.u))
     [] c.f = "gssub"       -> IsStr(r) /\ r.s \in GssubSet(c.s, c.t, c.u)
     \* index: "Returns the index (1-based) of the second argument within the first. Returns -1 if the second argument
     \* isn't a substring of the first. Uses UTF-8 encoding to count characters, not bytes." (which occurrence: not stated)
-    [] c.f = "index"       -> IF Occs(c.s, c.t) = {} THEN r = Int(-1) ELSE r.k = "int" /\ r = Int(r.n) /\ r.n \in Occs(c.s, c.t)
-    [] c.f = "contains"    -> r = Bool(Occs(c.s, c.t) # {})
+    [] c.f = "index"       -> IF Occs(c.s, c.t) = {} THEN r = RInt(-1) ELSE r.k = "int" /\ r = RInt(r.n) /\ r.n \in Occs(c.s, c.t)
+    [] c.f = "contains"    -> r = RBool(Occs(c.s, c.t) # {})
     [] c.f \in {"splitax", "splita"}   -> SplitArrOK(c.s, c.t, r)
     [] c.f \in {"splitnv", "splitnvx"} -> SplitMapOK(c.s, c.t, r)
-    [] c.f = "joinv"       -> r = Str(Join(c.a, c.t))
-    [] c.f = "joink"       -> r = Str(Join(KeysOf(c.a, c.ks), c.t))
-    [] c.f = "joinkv"      -> r = Str(Join(Pairs(c.a, c.ks, c.t), c.u))
+    [] c.f = "joinv"       -> r = RStr(Join(c.a, c.t))
+    [] c.f = "joink"       -> r = RStr(Join(KeysOf(c.a, c.ks), c.t))
+    [] c.f = "joinkv"      -> r = RStr(Join(Pairs(c.a, c.ks, c.t), c.u))
     \* the inverse pairs, evaluated by the implementation as compositions
-    [] c.f = "join_split"  -> r = Str(c.s)                               \* joinv(splitax(s, t), t)
+    [] c.f = "join_split"  -> r = RStr(c.s)                               \* joinv(splitax(s, t), t)
     [] c.f = "split_join"  -> SplitArrOK(Join(c.a, c.t), c.t, r)          \* splitax(joinv(a, t), t)
     [] c.f = "splitkvx_joinkv" -> r = SplitKV(Join(Pairs(c.a, c.ks, c.t), c.u), c.t, c.u)   \* splitkvx(joinkv(m, t, u), t, u)
     [] OTHER -> FALSE
@@ -208,33 +207,33 @@ UpperU(s) == [k \in 1..Len(s) |-> IF s[k] = "e2" THEN "E2" ELSE UpperA(s)[k]]
 LowerU(s) == [k \in 1..Len(s) |-> IF s[k] = "E2" THEN "e2" ELSE LowerA(s)[k]]
 Canon(s) == [k \in 1..Len(Skel(s)) |-> IF Skel(s)[k] = "ws" THEN "sp" ELSE Skel(s)[k]]
 Witness(c) ==
-  CASE c.f = "strlen"      -> Int(Len(c.s))
-    [] c.f = "toupper"     -> Str(UpperA(c.s))
-    [] c.f = "tolower"     -> Str(LowerA(c.s))
-    [] c.f = "capitalize"  -> Str(IF c.s = <<>> THEN <<>> ELSE UpperA(<<c.s[1]>>) \o Tail(c.s))
-    [] c.f = "lstrip"      -> Str(LStrip(c.s))
-    [] c.f = "rstrip"      -> Str(RStrip(c.s))
-    [] c.f = "strip"       -> Str(Strip(c.s))
-    [] c.f = "collapse_whitespace" -> Str(Canon(c.s))
-    [] c.f = "clean_whitespace"    -> Str(Canon(Strip(c.s)))
+  CASE c.f = "strlen"      -> RInt(Len(c.s))
+    [] c.f = "toupper"     -> RStr(UpperA(c.s))
+    [] c.f = "tolower"     -> RStr(LowerA(c.s))
+    [] c.f = "capitalize"  -> RStr(IF c.s = <<>> THEN <<>> ELSE UpperA(<<c.s[1]>>) \o Tail(c.s))
+    [] c.f = "lstrip"      -> RStr(LStrip(c.s))
+    [] c.f = "rstrip"      -> RStr(RStrip(c.s))
+    [] c.f = "strip"       -> RStr(Strip(c.s))
+    [] c.f = "collapse_whitespace" -> RStr(Canon(c.s))
+    [] c.f = "clean_whitespace"    -> RStr(Canon(Strip(c.s)))
     [] c.f = "index1"      -> Index(c.s, c.i)
-    [] c.f = "slice"       -> Str(Trim(c.s, c.i, c.j))
-    [] c.f = "substr1"     -> Str(Trim(c.s, IF c.i = 0 THEN 1 ELSE c.i, c.j))
-    [] c.f \in {"substr0", "substr"} -> Str(Trim(c.s, IF c.i >= 0 THEN c.i + 1 ELSE c.i, IF c.j >= 0 THEN c.j + 1 ELSE c.j))
-    [] c.f = "truncate"    -> Str(Take(c.s, Max(c.i, 0)))
-    [] c.f = "leftpad"     -> Str(LeftPad(c.s, c.i, c.t))
-    [] c.f = "rightpad"    -> Str(RightPad(c.s, c.i, c.t))
-    [] c.f = "dot"         -> Str(c.s \o c.t)
-    [] c.f = "ssub"        -> Str(Ssub(c.s, c.t, c.u))
-    [] c.f = "gssub"       -> Str(GssubLeft(c.s, c.t, c.u))
-    [] c.f = "index"       -> Int(IF Occs(c.s, c.t) = {} THEN -1 ELSE MinOf(Occs(c.s, c.t)))
-    [] c.f = "contains"    -> Bool(Occs(c.s, c.t) # {})
-    [] c.f \in {"splitax", "splita"}   -> IF c.s = <<>> THEN Arr(<<>>) ELSE Arr(Split(c.s, c.t))
-    [] c.f \in {"splitnv", "splitnvx"} -> IF c.s = <<>> THEN Map(<<>>, <<>>) ELSE Map(IndexKeys(Len(Split(c.s, c.t))), Split(c.s, c.t))
-    [] c.f = "joinv"       -> Str(Join(c.a, c.t))
-    [] c.f = "joink"       -> Str(Join(KeysOf(c.a, c.ks), c.t))
-    [] c.f = "joinkv"      -> Str(Join(Pairs(c.a, c.ks, c.t), c.u))
-    [] c.f = "join_split"  -> Str(c.s)
-    [] c.f = "split_join"  -> IF Join(c.a, c.t) = <<>> THEN Arr(<<>>) ELSE Arr(Split(Join(c.a, c.t), c.t))
+    [] c.f = "slice"       -> RStr(Trim(c.s, c.i, c.j))
+    [] c.f = "substr1"     -> RStr(Trim(c.s, IF c.i = 0 THEN 1 ELSE c.i, c.j))
+    [] c.f \in {"substr0", "substr"} -> RStr(Trim(c.s, IF c.i >= 0 THEN c.i + 1 ELSE c.i, IF c.j >= 0 THEN c.j + 1 ELSE c.j))
+    [] c.f = "truncate"    -> RStr(Take(c.s, Max(c.i, 0)))
+    [] c.f = "leftpad"     -> RStr(LeftPad(c.s, c.i, c.t))
+    [] c.f = "rightpad"    -> RStr(RightPad(c.s, c.i, c.t))
+    [] c.f = "dot"         -> RStr(c.s \o c.t)
+    [] c.f = "ssub"        -> RStr(Ssub(c.s, c.t, c.u))
+    [] c.f = "gssub"       -> RStr(GssubLeft(c.s, c.t, c.u))
+    [] c.f = "index"       -> RInt(IF Occs(c.s, c.t) = {} THEN -1 ELSE MinOf(Occs(c.s, c.t)))
+    [] c.f = "contains"    -> RBool(Occs(c.s, c.t) # {})
+    [] c.f \in {"splitax", "splita"}   -> IF c.s = <<>> THEN RArr(<<>>) ELSE RArr(Split(c.s, c.t))
+    [] c.f \in {"splitnv", "splitnvx"} -> IF c.s = <<>> THEN RMap(<<>>, <<>>) ELSE RMap(IndexKeys(Len(Split(c.s, c.t))), Split(c.s, c.t))
+    [] c.f = "joinv"       -> RStr(Join(c.a, c.t))
+    [] c.f = "joink"       -> RStr(Join(KeysOf(c.a, c.ks), c.t))
+    [] c.f = "joinkv"      -> RStr(Join(Pairs(c.a, c.ks, c.t), c.u))
+    [] c.f = "join_split"  -> RStr(c.s)
+    [] c.f = "split_join"  -> IF Join(c.a, c.t) = <<>> THEN RArr(<<>>) ELSE RArr(Split(Join(c.a, c.t), c.t))
     [] c.f = "splitkvx_joinkv" -> SplitKV(Join(Pairs(c.a, c.ks, c.t), c.u), c.t, c.u)
 =============================================================================
